@@ -81,7 +81,7 @@ func runBounded(w *World, prop, tier string, seed int, dir string) []*BoundedRes
 	os.Setenv("VERIF_TIER", tier)
 	overlayRace = race
 	defer func() { overlayRace = false }()
-	_, out := runOverlayTests(w, []overlayTest{{Name: "VerifNoop", Body: "\t\tfmt.Println(\"VERIF-RESULT VerifNoop pass\")"}}, filepath.Join("/verif/out", prop, "bounded"), sel...)
+	_, out := runOverlayTests(w, []overlayTest{{Name: "VerifNoop", Body: "\t\tfmt.Println(\"VERIF-RESULT VerifNoop pass\")"}}, filepath.Join(outRoot, prop, "bounded"), sel...)
 	for _, l := range strings.Split(out, "\n") {
 		l = strings.TrimSpace(l)
 		if strings.HasPrefix(l, "VERIF-BOUNDED-FAIL ") {
